@@ -371,7 +371,14 @@ func (pf Producer[T]) WithCancel() (Producer[T], context.CancelFunc) {
 
 	return func(ctx context.Context) (out T, _ error) {
 		once.Do(func() { wctx, cancel = context.WithCancel(ctx) })
-		Invariant.IsFalse(wctx == nil, "must start the operation before calling cancel")
+		if wctx == nil {
+			// the cancel function ran before the producer was
+			// ever called (e.g. an iterator closed while another
+			// goroutine is about to read it for the first time):
+			// the producer is canceled, which is not a
+			// programming error of the caller.
+			return out, context.Canceled
+		}
 		return pf(wctx)
 	}, func() { once.Do(func() {}); ft.SafeCall(cancel) }
 }
